@@ -54,7 +54,7 @@ Section Proofs.
      unterminated last line *)
   Definition body (u : bytes) : list bytes :=
     match lookup (rel [] u) with
-    | KLog c => body_of (fst (split_lines c)) (snd (split_lines c))
+    | KLog c => body_of (fst (log_lines c)) (snd (log_lines c))
     | _ => []
     end.
 
@@ -195,7 +195,7 @@ Section Proofs.
           destruct (mem u al); [reflexivity|]. rewrite orb_false_r.
           destruct (bytes_eqb u t) eqn:E; [|reflexivity].
           apply bytes_eqb_eq in E. subst u. unfold body. rewrite El. reflexivity.
-      + destruct (split_lines content) as [ls rest] eqn:Esp.
+      + destruct (log_lines content) as [ls rest] eqn:Esp.
         assert (Ht : mem t (t :: al) = true) by (rewrite mem_cons, bytes_eqb_refl; reflexivity).
         destruct (loop_spec _ IH t (parent_dir t) rest ls (t :: al) 0%nat 0%nat Ht Hs) as (Nm & No).
         split; [|split].
@@ -329,7 +329,7 @@ Section Attribution.
     - cbn. split; [auto|discriminate].
     - split; [discriminate|]. intros _.
       destruct (lookup (rel [] t)) as [| |content]; [discriminate Hs|exact I|].
-      destruct (split_lines content) as [ls rest].
+      destruct (log_lines content) as [ls rest].
       apply loop_attr; [exact IH|reflexivity|exact Hs].
   Qed.
 
